@@ -86,6 +86,7 @@ def run(chk):
                             {"registry": model.lines(), "activations": [h["op"] for h in variants[0]], "probe": k, "PYTHONHASHSEED": seed,
                              "expected": sorted(map(repr, al)), "observed": repr(got[k])})
     bundled(chk, rng, thorough)
+    two_parameters(chk)
     return chk.finish(
         rule="cases = stacks of up to three activations of MC_C11 (context, keyword parameter) realised through nine activation forms, 16 "
              "probe conversions each compared with the specification's admissible set; distinct by activation sequence; non-trivial = at "
@@ -270,6 +271,52 @@ def worker(path):
         got = realise(model, ops, "enable-seq", keys)
         out.append([[list(k), [v[0]] + ([[v[1].numerator, v[1].denominator]] if len(v) > 1 and isinstance(v[1], F) else list(v[1:]))] for k, v in got.items()])
     print(json.dumps(out))
+
+
+def two_parameters(chk):
+    """parameters are resolved one by one: a keyword of the call, else the value the single enclosing active context was entered with, else
+    the declared default - entering the inner context with one keyword does not stop the other parameter from being inherited.
+    (One enclosing context only: with deeper stacks the lender is not fixed by the statement, see ParamChoices in PintRegistry.tla.)"""
+    import pint
+    lines = ["a = [A]", "b = [B]", "g = [G]"]
+    forms = ("with", "enable", "per-call", "decorator")
+    for outer_n, inner_kw, want in ((3, {"k": 5}, {15}), (3, {}, {3}), (None, {"k": 5}, {10, 5}), (3, {"k": 5, "n": 7}, {35}), (None, {}, {2, 1})):
+        for form in forms:
+            chk.case(("two-parameters", outer_n, tuple(sorted(inner_kw.items())), form), nontrivial=True)
+            u = pint.UnitRegistry(lines, non_int_type=F)
+            outer = pint.Context("outer", defaults={"n": 2})
+            outer.add_transformation("[A]", "[B]", lambda ureg, x, n: x * n * ureg.Quantity(1, "b / a"))
+            inner = pint.Context("inner", defaults={"n": 1, "k": 1})
+            inner.add_transformation("[B]", "[G]", lambda ureg, x, n, k: x * n * k * ureg.Quantity(1, "g / b"))
+            u.add_context(outer)
+            u.add_context(inner)
+            okw = {} if outer_n is None else {"n": outer_n}
+            q = u.Quantity(F(1), "b")
+            try:
+                if form == "with":
+                    with u.context("outer", **okw):
+                        with u.context("inner", **inner_kw):
+                            got = q.to("g").magnitude
+                elif form == "enable":
+                    u.enable_contexts("outer", **okw)
+                    u.enable_contexts("inner", **inner_kw)
+                    got = q.to("g").magnitude
+                elif form == "per-call":
+                    with u.context("outer", **okw):
+                        got = q.to("g", "inner", **inner_kw).magnitude
+                else:
+                    with u.context("outer", **okw):
+                        @u.with_context("inner", **inner_kw)
+                        def f():
+                            return q.to("g").magnitude
+                        got = f()
+            except Exception as e:
+                chk.diverge({"clause": "two-parameters-raises", "form": form, "exc": type(e).__name__}, {"outer_n": outer_n, "inner": inner_kw})
+                continue
+            # expected: n = call keyword, else the value the enclosing context was entered with, else a declared default (the enclosing
+            # context's 2 or the inner context's 1: the statement does not say which, both are admitted); k likewise
+            if got not in want:
+                chk.diverge({"clause": "parameter-resolution", "form": form, "inner_keywords": sorted(inner_kw)}, {"outer_n": outer_n, "inner": inner_kw, "expected": sorted(want), "observed": str(got)})
 
 
 def replay(chk, rec):
